@@ -179,6 +179,13 @@ class FromDAOState:
     Dictionary that marks objects as currently being processed by the `from_dao` method.
     """
 
+    keep_alive: InstanceDict = field(default_factory=dict)
+    """
+    Dictionary that prevents the memoized DAOs from being garbage collected. The memo is keyed by object ids, and the
+    id of a DAO that only lived during the conversion (e.g. the DAO built for an alternatively mapped parent) would
+    otherwise be reused by a DAO that is created or loaded later.
+    """
+
     def has(self, dao_obj: Any) -> bool:
         return id(dao_obj) in self.memo
 
@@ -197,6 +204,7 @@ class FromDAOState:
         """
         result = original_cls.__new__(original_cls)
         self.memo[id(dao_obj)] = result
+        self.keep_alive[id(dao_obj)] = dao_obj
         self.in_progress[id(dao_obj)] = True
         return result
 
